@@ -128,8 +128,11 @@ def eval_word(case):
         return SKIP('fewer than 2 cycles')
     sgn = {'site': 'compute_features_2d(axis=None)', 'options': kind, 'method': method}
     obs = {'word': w, 'epoch_len': E, 'centre': centre}
+    layout = 'F' if (sum(map(ord, w)) + E + (kind == 'list') + (method == 'amp') + (centre == 'trough')) % 2 else 'C'
+    arg = sigs.copy() if layout == 'C' else np.asfortranarray(sigs)      # same values, column-major memory layout
+    sgn['layout'] = layout
     try:
-        got = compute_features_2d(sigs.copy(), 64, (6, 14), copy.deepcopy(kw), axis=None)
+        got = compute_features_2d(arg, 64, (6, 14), copy.deepcopy(kw), axis=None)
     except Exception as e:      # noqa
         return VIOL(dict(sgn, kind='raise', exc=type(e).__name__, empty_epoch=any(len(r) == 0 for r in ref)),
                     'compute_features_2d(axis=None) raised %s: %s' % (type(e).__name__, str(e)[:120]), observed=obs)
